@@ -376,7 +376,9 @@ theorem step_ps {w : World} (e : Ev) (hI : Inv12 w)
     simp only [step]
     split
     · exact .refl w
-    · split <;> exact env (EnvSame.of_conns rfl rfl rfl rfl)
+    · split
+      · split <;> exact env (EnvSame.of_conns rfl rfl rfl rfl)
+      · exact env (EnvSame.of_conns rfl rfl rfl rfl)
   | app r =>
     simp only [step]
     split
@@ -388,14 +390,26 @@ theorem step_ps {w : World} (e : Ev) (hI : Inv12 w)
     simp only [step]
     split
     · exact .refl w
-    · refine .of_view (fun m => ⟨rfl, ?_⟩)
-      unfold msgPkts allPkts
-      simp [List.flatMap_append, about]
+    · split
+      · -- (deaf dialer) the dead connection carries only CONNECT
+        have key : ∀ w0 : World, EnvSame w w0 → w0.taskQ = w.taskQ → w0.retryQ = w.retryQ →
+            PidStep w (progress w0) :=
+          fun w0 e0 ht hr => (env e0).trans (progress_ps (hI.env e0 ht hr))
+        refine key _ ⟨rfl, fun m => ?_, rfl, fun _ k hk => ?_⟩ rfl rfl
+        · unfold msgPkts allPkts
+          simp [List.flatMap_append, about]
+        · simp only [Option.some.injEq] at hk
+          subst hk; simp
+      · refine .of_view (fun m => ⟨rfl, ?_⟩)
+        unfold msgPkts allPkts
+        simp [List.flatMap_append, about]
   | dialFail =>
     simp only [step]
     split
     · exact .refl w
-    · split <;> exact env (EnvSame.of_conns rfl rfl rfl rfl)
+    · split
+      · exact env (EnvSame.of_conns rfl rfl rfl rfl)
+      · split <;> exact env (EnvSame.of_conns rfl rfl rfl rfl)
   | waitElapsed =>
     simp only [step]
     split
@@ -408,7 +422,7 @@ theorem step_ps {w : World} (e : Ev) (hI : Inv12 w)
     · split
       · exact env (EnvSame.of_conns rfl rfl rfl rfl)
       · exact env (EnvSame.of_conns rfl rfl rfl rfl)
-      · exact env (EnvSame.of_conns rfl rfl rfl rfl)
+      · split <;> exact env (EnvSame.of_conns rfl rfl rfl rfl)
       · rename_i k _
         have ea : EnvSame w { w with ctxCancelled := true, connReady := true } :=
           EnvSame.of_conns rfl rfl rfl rfl
